@@ -12,6 +12,7 @@ INPUT_CLASSES = {
     "late_lexfail": b"print 2\n" * 40 + b"print 12abc\n",
     "lexfail_string": b'print "abc\n' + b"print 2\n" * 10,
     "empty": b"",
+    "many_syntax_long": b"".join(b"print %d +\nvar v%d = )\n" % (i, i) for i in range(200)),
     "semi_junk": b"eval 1; 2\nvar port = 8080; port = 9090\nprint 3\n" * 3,
     "multibyte": "print \"é€😀\" # é\u0085\nvar x = 1   print x\n".encode() * 4,
 }
@@ -94,6 +95,11 @@ def check_C11(ctx):
             api = ["parse", "parse", "interpret", "unmarshal"][(j + len(name)) % 4]
             cases.append(dict(id="%s/%d" % (name, j), src_hex=data.hex(), script=sc, api=api,
                               delay_us=rng.choice([0, 0, 0, 50, 300])))
+    # diagnostics formatted while many further small chunks are still arriving (lexer, parser and reader all busy): repeated,
+    # because what goes wrong here depends on the interleaving
+    for k in range(ctx.n(25, 200)):
+        cases.append(dict(id="many_syntax_long/r%d" % k, src_hex=INPUT_CLASSES["many_syntax_long"].hex(),
+                          script=[["d", rng.choice([3, 3, 2, 5])]] * 1500, api=["parse", "interpret"][k % 2], delay_us=0))
     res, missing, err = ctx.probe("proto", cases, timeout=3000)
     for cid in missing[:3]:
         ctx.violation("the probe process died (panic in a ParseFile goroutine?)", dict(id=cid, log=(err or "")[-1500:]),
